@@ -15,7 +15,21 @@ namespace Pg.C02
 inductive Key where
   | s (name : String)
   | i (idx : Int)
+  | b (v : Bool)             -- `True` / `False` are `int` instances: admitted keys, equal to `1` / `0`
   deriving DecidableEq, Repr, Inhabited
+
+def Key.num? : Key → Option Int
+  | .i j => some j
+  | .b v => some (if v then 1 else 0)
+  | .s _ => Option.none
+
+/-- Python key equality (`hash` + `==`): `True` and `1` are the same key, but remain
+distinguishable objects (the dict keeps the key object that was inserted first). -/
+def Key.eqv : Key → Key → Bool
+  | .s n1, .s n2 => n1 == n2
+  | k1, k2 => match k1.num?, k2.num? with
+    | some x, some y => x == y
+    | _, _ => false
 
 /-- Python values that cross the API in this property: atoms and nested containers.
 `missing` is `pg.MISSING_VALUE`. Whether a nested container is a plain `list`/`dict` or a
@@ -64,7 +78,7 @@ def Val.num? : Val → Option Int
 
 def lookupKey (k : Key) : List (Key × Val) → Option Val
   | [] => Option.none
-  | (k', v) :: rest => if k' = k then some v else lookupKey k rest
+  | (k', v) :: rest => if k'.eqv k then some v else lookupKey k rest
 
 mutual
   /-- Python `==` on the modelled values (dict equality ignores order). -/
@@ -637,17 +651,18 @@ def implL (xs : List Val) (st : LStep) : LOut :=
 
 /-! ## Dicts -/
 
-def hasKey (kvs : List (Key × Val)) (k : Key) : Bool := kvs.any (fun p => p.1 = k)
+def hasKey (kvs : List (Key × Val)) (k : Key) : Bool := kvs.any (fun p => p.1.eqv k)
 
 /-- `d[k] = v` on a builtin dict: an existing key keeps its position. -/
 def dictSet (kvs : List (Key × Val)) (k : Key) (v : Val) : List (Key × Val) :=
-  if hasKey kvs k then kvs.map (fun p => if p.1 = k then (p.1, v) else p) else kvs ++ [(k, v)]
+  if hasKey kvs k then kvs.map (fun p => if p.1.eqv k then (p.1, v) else p) else kvs ++ [(k, v)]
 
-def dictErase (kvs : List (Key × Val)) (k : Key) : List (Key × Val) := kvs.filter (fun p => !(p.1 = k))
+def dictErase (kvs : List (Key × Val)) (k : Key) : List (Key × Val) := kvs.filter (fun p => !(p.1.eqv k))
 
 def Key.toVal : Key → Val
   | .s n => .str n
   | .i j => .int j
+  | .b v => .bool v
 
 inductive DOp where
   | get (k : Key) | getD (k : Key) (d : Val) | contains (k : Key) | len
